@@ -7,8 +7,9 @@
     3. `getStep`    streamable_client.go `handleGetSSEEvents` / `processSSEEvent` (`bufio.Scanner`: token limit)
     4. `legStep`    sse_client.go `readSSE` / `handleEvent` / `handleEndpointEvent` (the `endpointChan` latch) /
                     `handleMessageEvent` / `handleResponse`
-    5. `stdioStep`  transport_stdio.go `readLoop` (`json.Decoder`, sticky error) / `handleResponse` /
-                    `handleErrorResponse` / `handleNotification` / `handleIncomingRequest`
+    5. `stdioStep`  transport_stdio.go `readLoop` (a LINE reader: `ReadBytes('\n')` + `json.Unmarshal` per line; before the
+                    repair of D16 a `json.Decoder` loop with a sticky error, kept as the `.spin` / `.stop` regions) /
+                    `handleResponse` / `handleErrorResponse` / `handleNotification` / `handleIncomingRequest`
 
   What is *not* modelled but taken as an oracle bit carried by the input token: whether a text is a JSON value (and which),
   whether `url.Parse` accepts it, how many bytes the raw line has.  The harness computes these bits with the same standard
@@ -23,13 +24,15 @@ open Mcp.Str Mcp.Json
 
 /-! ## facts -/
 
-/-- what `readLoop` does after `Decode` returned a non-EOF error -/
+/-- the shape of the stdio `readLoop` -/
 inductive OnErr where
-  /-- `continue` with the same decoder: its error is sticky, no input is consumed any more (today) -/
+  /-- a `json.Decoder` loop that `continue`s after an error: the decoder's error is sticky, no input is consumed any more
+      (the code before the repair of D16) -/
   | spin
-  /-- leaves the loop -/
+  /-- a `json.Decoder` loop that leaves at the first error -/
   | stop
-  /-- drops the offending line and goes on (line reader, or a fresh decoder behind the bad line) -/
+  /-- a LINE reader (today): `ReadBytes('\n')`, blank lines skipped, `json.Unmarshal` of the whole line, a line that is not
+      exactly one JSON value is logged and skipped, EOF ends the loop -/
   | resync
   deriving DecidableEq, Repr
 
@@ -365,14 +368,20 @@ def legRun (F : Facts) (st : LegSt) (ls : List Line) : LegSt := ls.foldl (legSte
 /-! ## 5. stdio (`readLoop`) -/
 
 inductive Frame where
-  /-- white space between values -/
+  /-- a blank line (white space only) -/
   | ws
-  /-- bytes that do not continue a JSON value: `Decode` returns a syntax error -/
+  /-- a line of bytes that are no JSON at all: `Unmarshal` fails (line reader) / `Decode` returns a syntax error (decoder) -/
   | garbage
-  /-- the stream ends inside a value: `Decode` returns `io.ErrUnexpectedEOF` -/
+  /-- the stream ends inside a value: the last, unterminated line is not JSON (line reader, then EOF) /
+      `Decode` returns `io.ErrUnexpectedEOF` (decoder) -/
   | truncated
-  /-- one complete JSON value -/
+  /-- one complete JSON value alone on one line -/
   | value (v : Json)
+  /-- one JSON value printed over several lines, none of which is a JSON value by itself: a decoder reads the value, a line
+      reader skips every one of its lines -/
+  | spread (v : Json)
+  /-- several JSON values on one line: a decoder reads them one after the other, a line reader refuses the line -/
+  | packed (vs : List Json)
 
 structure StdioSt where
   halt : Option Halt := none
@@ -408,16 +417,25 @@ def stdioValue (H : List Text) (st : StdioSt) (v : Json) : StdioSt :=
   | some (.request, m) =>
     if reqDecodes m then { st with answers := st.answers ++ [(idOf m, isRoots m)] } else st
 
+/-- the line reader: only a line that is exactly one JSON value is handed on -/
+def stdioLineStep (H : List Text) (st : StdioSt) : Frame → StdioSt
+  | .value v => stdioValue H st v
+  | _ => st
+
+/-- the decoder loop (`e` = `.spin` or `.stop`): values wherever they stand; bytes that are not JSON end it for good -/
+def stdioDecoderStep (e : OnErr) (H : List Text) (st : StdioSt) : Frame → StdioSt
+  | .ws => st
+  | .value v => stdioValue H st v
+  | .spread v => stdioValue H st v
+  | .packed vs => vs.foldl (stdioValue H) st
+  | _ => { st with halt := some (if e = .spin then .spin else .dead) }
+
 def stdioStep (F : Facts) (H : List Text) (st : StdioSt) (f : Frame) : StdioSt :=
   if st.halt.isSome then st
-  else match f with
-    | .ws => st
-    | .value v => stdioValue H st v
-    | _ =>
-      match F.stdioOnError with
-      | .spin => { st with halt := some .spin }
-      | .stop => { st with halt := some .dead }
-      | .resync => st
+  else match F.stdioOnError with
+    | .resync => stdioLineStep H st f
+    | .spin => stdioDecoderStep .spin H st f
+    | .stop => stdioDecoderStep .stop H st f
 
 def stdioRun (F : Facts) (H : List Text) (st : StdioSt) (fs : List Frame) : StdioSt := fs.foldl (stdioStep F H) st
 
@@ -473,8 +491,15 @@ def legLineAddressed (c : Nat) (l : Line) : Bool :=
   | _ => false
 
 /-- the value is an object whose id selects call `c` in the stdio transport's table (`int64(float64)` conversion) -/
+def valueAddressed (c : Nat) : Json → Bool
+  | .obj m => keyIs c (idOf m)
+  | _ => false
+
+/-- the frame carries a value addressed to call `c` (wherever a decoder would find it) -/
 def stdioAddressed (c : Nat) : Frame → Bool
-  | .value (.obj m) => keyIs c (idOf m)
+  | .value v => valueAddressed c v
+  | .spread v => valueAddressed c v
+  | .packed vs => vs.any (valueAddressed c)
   | _ => false
 
 /-- the line names the `endpoint` event type -/
